@@ -212,7 +212,7 @@ def replay(ctx, path):
         return C02.replay(ctx, path)
     hcmd, dcmd = build(ctx)
     vlib.lake_build(["drv_c01"])
-    a = vlib.run_one(hcmd, ops)
+    a, ops = vlib.run_replay_conc(hcmd, ops)
     b = vlib.run_one(dcmd, [l for l in ops if not l.startswith("fine ")])
     print("\n".join(a["out"]))
     conf = [l for l in ops if not l.startswith("sched ") and l != "run"]
